@@ -181,11 +181,11 @@ def circle_stream(ctx, n):
     for k in range(n):
         cx, cy = Fraction(rng.randint(-6, 6)), Fraction(rng.randint(-6, 6))
         a, b, h = rng.choice(PYTH2)
-        scale = rng.choice([1, 2, 3])
+        scale = rng.choice([1, 2, 3, Fraction(1, 2), Fraction(3, 10)])
         r = Fraction(h * scale)
         kind = rng.choice(["circle", "ellipse"])
         if kind == "ellipse":
-            hr, vr = Fraction(rng.randint(1, 4)), Fraction(rng.randint(1, 4))
+            hr, vr = Fraction(rng.randint(1, 8), 2), Fraction(rng.randint(1, 8), 2)
             px, py = cx + hr * Fraction(a, h), cy + vr * Fraction(b, h)
             A = [[vr * vr, 0, -vr * vr * cx], [0, hr * hr, -hr * hr * cy], [-vr * vr * cx, -hr * hr * cy, vr * vr * cx * cx + hr * hr * cy * cy - hr * hr * vr * vr]]
         else:
@@ -204,8 +204,10 @@ def circle_stream(ctx, n):
         missv = dec_q(answers[3 * i + 1].split(" ")[1])[0] == 0
         gen_m = answers[3 * i + 2]
         # centre with an arbitrary homogeneous scale (also as a meet of two lines)
-        how = rng.choice(["plain", "scaled", "meet"])
-        if how == "plain":
+        how = rng.choice(["plain", "scaled", "meet", "int"])
+        if how == "int":
+            C = g.Point(int(cx), int(cy))          # integer dtype: the matrix must not inherit it
+        elif how == "plain":
             C = g.Point(float(cx), float(cy))
         elif how == "scaled":
             w = rng.choice([2, -1, -2, 3])
